@@ -16,10 +16,10 @@ LEVEL = "exploration"
 HDLC_CONST = 16 * 1024
 P1_CONST = 48 * 1024
 RULE = (
-    "run = (reader, pattern, chunk size): HDLC patterns {all flags, flag + short junk, flag + lone escape, valid frames back to back, never-ending frame, random bytes} "
-    "under two configurations; P1 patterns {'/' ident lines without '!', '/' + bytes without LF, ident line + endless data lines, valid readouts back to back, "
-    "random ASCII, random bytes, text without '/' and LF}; chunk sizes {1 (first 128 KiB), 64, 4096, 65536}; stream length 1 MiB (quick) / 16 MiB (thorough). "
-    f"oracle: deep size after read() <= {HDLC_CONST} (HDLC) / {P1_CONST} (P1) + 3 x chunk bytes at every sample, and max over the second half <= max over the first half + chunk + 1 KiB. "
+    "run = (reader, pattern, chunk size): HDLC patterns {all flags, flag + short junk, flag + lone escape, valid frames back to back (two flags / one shared flag), never-ending frame, "
+    "frame longer than its length field followed by endless flags, random bytes} under two configurations; P1 patterns {'/' ident lines without '!', '/' + bytes without LF, '////..' and '/abc/abc..' without LF, "
+    "ident line + endless data lines, ident line + endless bytes without LF, ever-changing '/' lines, valid readouts back to back, random ASCII, random bytes, text without '/' and LF}; chunk sizes {1 (first 128 KiB), 64, 4096, 65536}; stream length 1 MiB (quick) / 16 MiB (thorough). "
+    f"oracle: deep size after read() <= {HDLC_CONST} (HDLC) / {P1_CONST} (P1) + 3 x chunk bytes at every sample, and max over the second half <= 1.25 x max over the first half + chunk + 1 KiB (jittered sampling, so that a bounded saw-tooth is not mistaken for growth). "
     "evaluations = read() calls made; distinct non-trivial = distinct (reader, configuration, pattern, chunk size) runs with >= 16 size samples."
 )
 ASSUMPTIONS = [
@@ -28,8 +28,10 @@ ASSUMPTIONS = [
 ]
 WATCHDOG_S = {"quick": 900, "thorough": 7200}
 
-HDLC_PATTERNS = ("all_flags", "flag_short_junk", "flag_lone_escape", "valid_frames", "never_ending_frame", "random_bytes")
-P1_PATTERNS = ("ident_lines_without_end", "slash_without_lf", "ident_then_endless_data", "valid_readouts", "random_ascii", "random_bytes", "text_without_slash_and_lf")
+HDLC_PATTERNS = ("all_flags", "flag_short_junk", "flag_lone_escape", "valid_frames", "never_ending_frame", "random_bytes", "overlong_frame_then_flags",
+                 "single_flag_between_frames")
+P1_PATTERNS = ("ident_lines_without_end", "slash_without_lf", "ident_then_endless_data", "valid_readouts", "random_ascii", "random_bytes", "text_without_slash_and_lf",
+               "slashes_without_lf", "slash_words_without_lf", "ident_then_no_lf", "varying_slash_lines")
 CHUNKS = (1, 64, 4096, 65536)
 
 
@@ -64,6 +66,13 @@ def make_stream(rng, reader: str, cfg, pattern: str, total: int) -> bytes:
             ids = hdlc_gen.IdSource(rng)
             unit = b"\x7e" + b"\x7e".join(hdlc_gen.on_wire(hdlc_gen.good_frame(rng, ids, max_info=200)[0], cfg[0]) for _ in range(200)) + b"\x7e"
             return (unit * (total // len(unit) + 1))[:total]
+        if pattern == "overlong_frame_then_flags":
+            # a frame that is already longer than its length field says, followed by endless flag fill
+            return (b"\x7e\xa0\x08\x01\x02\x01\x10" + bytes(rng.randrange(0x80) for _ in range(39)) + b"\x7e" * total)[:total]
+        if pattern == "single_flag_between_frames":
+            ids = hdlc_gen.IdSource(rng)
+            unit = b"".join(b"\x7e" + hdlc_gen.on_wire(hdlc_gen.good_frame(rng, ids, max_info=120, want_info=True)[0], cfg[0]) for _ in range(300))
+            return (unit * (total // len(unit) + 1))[:total]
         if pattern == "never_ending_frame":
             body = bytes(b if b != 0x7E else 0x7F for b in rng.randbytes(65536))
             return (b"\x7e\xa7\xff\x03\x03\x13" + body * (total // len(body) + 1))[:total]
@@ -74,6 +83,21 @@ def make_stream(rng, reader: str, cfg, pattern: str, total: int) -> bytes:
     if pattern == "slash_without_lf":
         body = bytes(rng.randrange(0x20, 0x7F) for _ in range(4096)).replace(b"/", b"x")
         return (b"/" + body * (total // len(body) + 1))[:total]
+    if pattern == "slashes_without_lf":
+        return b"/" * total
+    if pattern == "slash_words_without_lf":
+        unit = b"".join(b"/" + bytes(rng.randrange(0x61, 0x7B) for _ in range(rng.randint(1, 9))) for _ in range(500))
+        return (unit * (total // len(unit) + 1))[:total]
+    if pattern == "ident_then_no_lf":
+        body = bytes(rng.randrange(0x20, 0x7F) for _ in range(4096)).replace(b"/", b"x").replace(b"!", b"y")
+        return (p1_ref.strict_ident(rng)[0] + b"\r\n" + body * (total // len(body) + 1))[:total]
+    if pattern == "varying_slash_lines":
+        out = bytearray()
+        k = 0
+        while len(out) < total:
+            k += 1
+            out += b"/%d-%s\r\n" % (k, bytes(rng.randrange(0x61, 0x7B) for _ in range(rng.randint(0, 20))))
+        return bytes(out[:total])
     if pattern == "ident_then_endless_data":
         unit = b"".join(p1_gen.data_line(rng) + b"\r\n" for _ in range(400))
         return (p1_ref.strict_ident(rng)[0] + b"\r\n" + unit * (total // len(unit) + 1))[:total]
@@ -101,6 +125,7 @@ def one_run(spec: dict, ctx) -> None:
     const = HDLC_CONST if spec["reader"] == "hdlc" else P1_CONST
     bound = const + 3 * chunk
     samples = []
+    next_sample = 0
     returned = 0
     case = dict(spec)
     for i in range(n_calls):
@@ -111,9 +136,11 @@ def one_run(spec: dict, ctx) -> None:
         except Exception as ex:
             ctx.count("read_raised(decided by C14)")
             ctx.seen("exceptions(decided by C14)", p1_mon.where(ex))
-        if i % every == 0 or i == n_calls - 1:
+        if i >= next_sample or i == n_calls - 1:
             size, nobj = deepsize.deep_size(reader)
             samples.append((i, size))
+            # jittered sampling: a fixed stride can alias with a saw-tooth (buffer fills to its limit, is dropped, fills again)
+            next_sample = i + max(1, rng.randint(every // 2, every + every // 2))
     label = f"{spec['reader']}:{spec['pattern']}"
     worst = max(s for _, s in samples)
     ctx.maximum(f"max_deep_size[{label},chunk={chunk}]", worst)
@@ -132,7 +159,7 @@ def one_run(spec: dict, ctx) -> None:
         )
     half = len(samples) // 2
     first, second = max(s for _, s in samples[:half] or samples), max(s for _, s in samples[half:])
-    if second > first + chunk + 1024:
+    if second > first * 1.25 + chunk + 1024:
         ctx.violation(
             f"C19:growing:{label}",
             f"max deep size over the first half {first} bytes, over the second half {second} bytes (chunk {chunk}) - retained memory grows with the amount of data fed",
